@@ -166,7 +166,7 @@ func (r c34Rel) mirror() c34Rel { return c34Rel{mirrorOp[r.Op], r.R, r.L} }
 func c34AtomPred(spec string) func(c34Rel) bool {
 	g := parseGuard(spec)
 	return func(r c34Rel) bool {
-		a := Atom{Path(r.L), r.Op, Path(r.R)}
+		a := mkAtom(Path(r.L), r.Op, Path(r.R))
 		for _, sp := range g.atoms {
 			if sp.Satisfies(a) {
 				return true
